@@ -1646,6 +1646,9 @@ class LLParser:
         if start_symbol_name is not None:
             assert start_symbol_name in self.prods_map, (
                 f"unknown start parsing symbol '{start_symbol_name}' specified")
+            assert '__' not in start_symbol_name, (
+                f"Invalid start symbol '{start_symbol_name}'. Symbol names "
+                f"containing '__' are reserved")
         else:
             start_symbol_name = self.start_symbol_name
 
